@@ -639,6 +639,34 @@ pub fn directed() -> Vec<Request> {
             }
         }
     }
+    // bound lists with legal but unusual punctuation (a trailing `+`, a lone bound, a lifetime
+    // first, a binder) in every position where the expander writes `&` in front of a user type:
+    // `by` helpers of the comparison family, Deref, the impl path's self / operand / output types
+    for ty in [
+        "dyn A +", "dyn A + B +", "impl A +", "dyn 'a + A", "dyn A + 'a +", "dyn for<'b> A<'b> +",
+        "(dyn A +)", "&'a (dyn A +)", "Box<dyn A +>", "__ng(dyn A +)", "dyn A<T> +", "dyn Fn() -> u8 +",
+    ] {
+        for h in ["ord(by = f)", "partial_ord(by = f)", "eq(by = f)", "partial_eq(by = |_, _| true)", "hash(by = f)", "ord(key = $.0)", "ord(by = f, reverse)"] {
+            for item in [
+                format!("struct X<'a, T>(u8, #[{h}] {ty});"),
+                format!("struct X<'a, T> {{ n: T, #[{h}] x: {ty}, }}"),
+                format!("enum X<'a, T> {{ A(T, #[{h}] {ty}), #[default] B }}"),
+            ] {
+                out.push(Request { mode: Mode::Attr, attr: "Ord, PartialOrd, Eq, PartialEq, Hash".into(), item: item.clone() });
+                out.push(Request { mode: Mode::Derive, attr: String::new(), item: format!("#[derive_ex(PartialEq, Hash)] {item}") });
+            }
+        }
+        for (attr, item) in [
+            ("Deref, DerefMut", format!("struct X<'a, T>({ty});")),
+            ("Deref", format!("struct X<'a, T> {{ x: {ty} }}")),
+            ("Clone, Debug, Default, PartialOrd, PartialEq, Hash", format!("struct X<'a, T>(T, {ty});")),
+            ("Add, AddAssign", format!("impl<'a, T> Add<{ty}> for X {{ type Output = {ty}; }}")),
+            ("Add, AddAssign", format!("impl<'a, T> Add for {ty} {{ type Output = X; }}")),
+            ("Sub", format!("impl<'a, T> SubAssign<&Self> for {ty} {{ }}")),
+        ] {
+            out.push(Request { mode: Mode::Attr, attr: attr.into(), item });
+        }
+    }
     // expressions handed over by a `macro_rules!` expansion (`$e:expr`)
     for e in ["1", "\"s\"", "X::A", "{ X(1) } + X(2)", "$.0", "|a, b| a == b", "f", "1 + 2", "_"] {
         for item in [
